@@ -287,11 +287,17 @@ func (r *rewriter) post(c *astutil.Cursor) bool {
 		}
 	case *ast.SendStmt:
 		if !r.skip[n] {
+			// a send on a channel that is closed while the sender is
+			// blocked panics: the post-gate is deferred so that the woken
+			// goroutine still parks before it runs any further.
 			t := r.newTmp("t")
+			lit := &ast.FuncLit{Type: &ast.FuncType{Params: &ast.FieldList{}}, Body: &ast.BlockStmt{List: []ast.Stmt{
+				&ast.DeferStmt{Call: simrtCall("Post", t)},
+				n,
+			}}}
 			c.Replace(&ast.BlockStmt{List: []ast.Stmt{
 				&ast.AssignStmt{Lhs: []ast.Expr{t}, Tok: token.DEFINE, Rhs: []ast.Expr{simrtCall("Pre", r.site("send"))}},
-				n,
-				&ast.ExprStmt{X: simrtCall("Post", t)},
+				&ast.ExprStmt{X: &ast.CallExpr{Fun: lit}},
 			}})
 		}
 	case *ast.GoStmt:
@@ -885,8 +891,12 @@ func (r *rewriter) selectStmt(c *astutil.Cursor, n *ast.SelectStmt) {
 			Cond: &ast.BinaryExpr{X: k, Op: token.LSS, Y: lit(0)},
 			Body: &ast.BlockStmt{List: []ast.Stmt{
 				&ast.ExprStmt{X: simrtCall("SelBlock", sel)},
-				&ast.SelectStmt{Body: &ast.BlockStmt{List: block}},
-				&ast.ExprStmt{X: simrtCall("SelWake", sel)},
+				// deferred post-gate: a blocked send case panics when the
+				// channel is closed under it.
+				&ast.ExprStmt{X: &ast.CallExpr{Fun: &ast.FuncLit{Type: &ast.FuncType{Params: &ast.FieldList{}}, Body: &ast.BlockStmt{List: []ast.Stmt{
+					&ast.DeferStmt{Call: simrtCall("SelWake", sel)},
+					&ast.SelectStmt{Body: &ast.BlockStmt{List: block}},
+				}}}}},
 			}},
 		})
 	}
